@@ -61,7 +61,7 @@ func Denitr(g *GlobalVarsMain, thetasatFromPorges bool) {
 		//Let MaxN2O = 0.63
 		MaxN2O := 0.63
 		//LET FO = 1 - 2.05 * Max(0,Thetarel-0.62)
-		FO := 1 - 2.05*math.Max(0, thetarel-0.62)
+		FO := math.Max(0, 1-2.05*math.Max(0, thetarel-0.62)) // no N2O share left once the soil is fully anaerobic, never a negative one
 		//Let DNO = (0.44 + 0.0015*3)/3
 		DNO := (0.44 + 0.0015*3) / 3
 		//Let FN = Min(DNO*nitratOb30*0.667,(0.44+0.0015 * 0.67*nitratOB30))
